@@ -8,6 +8,7 @@ import (
 	"bytes"
 	"flag"
 	"fmt"
+	"math"
 	"sort"
 	"strings"
 	"sync"
@@ -125,11 +126,19 @@ func veto(ctx erpc.ReadCtx, stage string) *erpc.Status {
 	}
 	return nil
 }
-func (vetoPlugin) PostReadCallHeader(ctx erpc.ReadCtx) *erpc.Status { return veto(ctx, "PostReadCallHeader") }
-func (vetoPlugin) PreReadCallBody(ctx erpc.ReadCtx) *erpc.Status    { return veto(ctx, "PreReadCallBody") }
-func (vetoPlugin) PostReadCallBody(ctx erpc.ReadCtx) *erpc.Status   { return veto(ctx, "PostReadCallBody") }
-func (vetoPlugin) PostReadPushHeader(ctx erpc.ReadCtx) *erpc.Status { return veto(ctx, "PostReadPushHeader") }
-func (vetoPlugin) PostReadPushBody(ctx erpc.ReadCtx) *erpc.Status   { return veto(ctx, "PostReadPushBody") }
+func (vetoPlugin) PostReadCallHeader(ctx erpc.ReadCtx) *erpc.Status {
+	return veto(ctx, "PostReadCallHeader")
+}
+func (vetoPlugin) PreReadCallBody(ctx erpc.ReadCtx) *erpc.Status { return veto(ctx, "PreReadCallBody") }
+func (vetoPlugin) PostReadCallBody(ctx erpc.ReadCtx) *erpc.Status {
+	return veto(ctx, "PostReadCallBody")
+}
+func (vetoPlugin) PostReadPushHeader(ctx erpc.ReadCtx) *erpc.Status {
+	return veto(ctx, "PostReadPushHeader")
+}
+func (vetoPlugin) PostReadPushBody(ctx erpc.ReadCtx) *erpc.Status {
+	return veto(ctx, "PostReadPushBody")
+}
 
 // write-stage hooks: a non-OK verdict or a panic there must not change the reply count either
 func writeStage(ctx erpc.WriteCtx, stage string) *erpc.Status {
@@ -145,8 +154,12 @@ func writeStage(ctx erpc.WriteCtx, stage string) *erpc.Status {
 	}
 	return nil
 }
-func (vetoPlugin) PreWriteReply(ctx erpc.WriteCtx) *erpc.Status  { return writeStage(ctx, "PreWriteReply") }
-func (vetoPlugin) PostWriteReply(ctx erpc.WriteCtx) *erpc.Status { return writeStage(ctx, "PostWriteReply") }
+func (vetoPlugin) PreWriteReply(ctx erpc.WriteCtx) *erpc.Status {
+	return writeStage(ctx, "PreWriteReply")
+}
+func (vetoPlugin) PostWriteReply(ctx erpc.WriteCtx) *erpc.Status {
+	return writeStage(ctx, "PostWriteReply")
+}
 
 type frame struct {
 	Kind  string `json:"kind"`
@@ -246,6 +259,7 @@ type script struct {
 	Frames   []frame `json:"frames"`
 	EndType  int     `json:"unsupported_type_at_end"` // -1: final /sync call instead
 	Class    string  `json:"class"`
+	SeqStart []int32 `json:"first_sequence_number_per_connection"`
 }
 
 func main() {
@@ -331,7 +345,14 @@ func main() {
 		for ci := 0; ci < sc.Conns; ci++ {
 			cr := &connRun{ci: ci}
 			var specs []wire.Spec
-			seq := int32(10)
+			// the requests of a connection carry consecutive sequence numbers from a start that places the 32-bit wrap,
+			// zero or a digit-count change of the textual encodings inside the script
+			starts := []int32{10, math.MaxInt32 - 3, -4, math.MinInt32 + 2, 33, 36*36 - 3, math.MaxInt32 - 40}
+			seq := starts[(int(r.Intn(len(starts)*2))+ci)%len(starts)]
+			if k := r.Intn(2); k == 0 {
+				seq = 10
+			}
+			sc.SeqStart = append(sc.SeqStart, seq)
 			for k := 0; k < n; k++ {
 				var kind string
 				switch x := r.Intn(10); {
